@@ -125,6 +125,11 @@ class VecEval:
                     base[k] = x
             elif isinstance(i, int):
                 base[i] = v
+            elif isinstance(i, tuple) and len(i) == 2 and isinstance(i[0], int) and isinstance(i[1], slice) and i[1] == slice(None) and isinstance(base[i[0]], list):
+                row = list(v) if isinstance(v, (tuple, list)) else [v] * len(base[i[0]])
+                if len(row) != len(base[i[0]]):
+                    raise Unsupported('row store shape')
+                base[i[0]] = row
             else:
                 raise Unsupported('store index')
             self.env[t.value.id] = base
@@ -141,6 +146,9 @@ class VecEval:
             raise Unsupported(f'name {e.id}')
         if isinstance(e, ast.Tuple):
             return tuple(self.expr(x) for x in e.elts)
+        if isinstance(e, ast.Slice):
+            return slice(self.expr(e.lower) if e.lower is not None else None, self.expr(e.upper) if e.upper is not None else None,
+                         self.expr(e.step) if e.step is not None else None)
         if isinstance(e, ast.UnaryOp):
             v = self.expr(e.operand)
             if isinstance(e.op, ast.Not):
@@ -225,6 +233,12 @@ class VecEval:
         if isinstance(e, ast.Attribute):
             if ast.unparse(e) in ('np.uint32', 'np.int64', 'np.intp', 'np.uint64', 'np.int32'):
                 return 'int'
+            if ast.unparse(e) in ('np.inf', 'numpy.inf', 'math.inf', 'np.Inf', 'np.PINF'):
+                return float('inf')
+            if ast.unparse(e) in ('np.nan', 'numpy.nan', 'math.nan', 'np.NaN'):
+                return float('nan')
+            if ast.unparse(e) in ('np.float64', 'np.float32', 'np.bool_'):
+                return 'dtype'
             base = self.expr(e.value) if not (isinstance(e.value, ast.Name) and e.value.id in ('np', 'numpy', 'self', 'pa', 'pd')) else None
             if isinstance(base, list) and e.attr == 'size':
                 return len(base)
@@ -250,6 +264,8 @@ class VecEval:
             if isinstance(v, list):
                 if short in ('min', 'max') and not v:
                     raise Unsupported('reduction of an empty vector')
+                if short in ('min', 'max') and any(isinstance(x, float) and x != x for x in v):
+                    return float('nan')
                 return {'all': all, 'any': any, 'min': min, 'max': max, 'sum': sum}[short](v)
         if fn == 'len' and len(e.args) == 1 and ast.unparse(e.args[0]) in ('self', 'self.data'):
             return self.n
@@ -283,6 +299,8 @@ class VecEval:
             n_, v_ = self.expr(e.args[0]), self.expr(e.args[1])
             if isinstance(n_, int):
                 return [v_] * n_
+            if isinstance(n_, tuple) and len(n_) == 2 and all(isinstance(x, int) for x in n_):
+                return [[v_] * n_[1] for _ in range(n_[0])]
         if fn in ('np.zeros', 'numpy.zeros', 'np.ones', 'numpy.ones') and e.args:
             n_ = self.expr(e.args[0])
             if isinstance(n_, int):
@@ -297,6 +315,23 @@ class VecEval:
             return len(args[0])
         if fn in ('int', 'np.intp', 'np.int64', 'bool', 'abs') and len(args) == 1 and not isinstance(args[0], list):
             return {'bool': bool, 'abs': abs}.get(fn, int)(args[0])
+        if fn in ('np.isfinite', 'numpy.isfinite', 'math.isfinite', 'isfinite') and len(args) == 1:
+            return _ew(lambda a, b: isinstance(a, (int, float)) and a == a and a not in (float('inf'), float('-inf')), args[0], 0)
+        if fn in ('np.isnan', 'numpy.isnan', 'math.isnan', 'isnan') and len(args) == 1:
+            return _ew(lambda a, b: isinstance(a, float) and a != a, args[0], 0)
+        if fn in ('np.isinf', 'numpy.isinf') and len(args) == 1:
+            return _ew(lambda a, b: a in (float('inf'), float('-inf')), args[0], 0)
+        if fn == 'float' and len(args) == 1 and not isinstance(args[0], list):
+            return float(args[0])
+        if fn in ('np.nanmin', 'np.nanmax', 'numpy.nanmin', 'numpy.nanmax', 'np.fmin.reduce', 'np.fmax.reduce') and len(args) == 1 and isinstance(args[0], list):
+            vs = [x for x in args[0] if x == x]
+            return (min(vs) if 'min' in fn else max(vs)) if vs else float('nan')
+        if fn in ('np.min', 'np.max', 'numpy.min', 'numpy.max', 'np.amin', 'np.amax') and len(args) == 1 and isinstance(args[0], list):
+            if not args[0]:
+                raise Unsupported('reduction of an empty vector')
+            if any(x != x for x in args[0]):
+                return float('nan')
+            return (min if 'min' in fn else max)(args[0])
         if fn in ('np.all', 'all', 'numpy.all') and isinstance(args[0], list):
             return all(args[0])
         if fn in ('np.any', 'any', 'numpy.any') and isinstance(args[0], list):
@@ -306,6 +341,8 @@ class VecEval:
         if fn in ('min', 'max', 'np.min', 'np.max') and len(args) == 1 and isinstance(args[0], list) and args[0]:
             return (min if 'min' in fn else max)(args[0])
         if fn in ('min', 'max') and len(args) >= 2 and not any(isinstance(a, list) for a in args):
+            if any(isinstance(a, float) and a != a for a in args):
+                raise Unsupported('scalar min/max with NaN operand (order dependent)')
             return (min if fn == 'min' else max)(args)
         if fn in ('np.arange', 'numpy.arange', 'range') and all(isinstance(a, int) for a in args):
             return list(range(*args))
